@@ -280,8 +280,14 @@ func (e *c16env) step() {
 		}
 		t := pending[r.Intn(len(pending))]
 		tt, _ := transformers.ProtoTrxToTrx(t.p)
-		variant := r.Intn(4)
+		variant := r.Intn(7)
 		switch variant {
+		case 4: // the proposal replayed as it is: no receiver signature at all
+			tt.ReceiverSignature = nil
+		case 5: // an empty, non-nil signature
+			tt.ReceiverSignature = []byte{}
+		case 6: // a single byte
+			tt.ReceiverSignature = []byte{0}
 		case 0:
 			ledger.CounterSign(&tt, dishonest)
 		case 1:
